@@ -11,9 +11,11 @@ ends with   SUMMARY lines=<n> corr=<n> spec=<n> mon=<n> modelspec=<n> bad=<n>
 import Midi.Driver.Msg
 import Midi.Driver.Ctors
 import Midi.Driver.Nums
+import Midi.Driver.Scan
 open Midi Midi.Driver
 
 structure St where
+  scan : ScanSt := {}
   lines : Nat := 0
   corr : Nat := 0
   spec : Nat := 0
@@ -36,7 +38,7 @@ def showObs (o : Obs) : String := " ".intercalate (o.map showCell)
 def nat? (s : String) : Option Nat := s.toNat?
 
 /-- evaluate one request: (model cells, spec cells if the request has an executable specification) -/
-def evalReq (req : List String) : Option (Obs × Option Obs) :=
+def evalStateless (req : List String) : Option (Obs × Option Obs) :=
   match req with
   | ["msg", impl, s, d1, d2] => do
       let b : Bytes := ⟨← nat? s, ← nat? d1, ← nat? d2⟩
@@ -92,6 +94,21 @@ def evalReq (req : List String) : Option (Obs × Option Obs) :=
       some (← modelTu f x y z, specTu f x y z)
   | _ => none
 
+/-- stateful requests first (scanner tables), then the stateless ones -/
+def evalReq (sc : ScanSt) (req : List String) : Option (ScanSt × Obs × Option Obs) :=
+  match req with
+  | "cc" :: rest => evalCC sc rest
+  | "pn" :: rest => evalPN sc rest
+  | ["enc14", impl, ch, cn, v] => do
+      let (ch, cn, v) := (← nat? ch, ← nat? cn, ← nat? v)
+      some (sc, modelEnc14 impl ch cn v, some (specEnc14 ch cn v))
+  | ["encpn", impl, i, ch, n, v, order] => do
+      let (i, ch, n, v) := (← nat? i, ← nat? ch, ← nat? n, ← nat? v)
+      let o := if order == "lsb" then ByteOrder.lsbFirst else ByteOrder.msbFirst
+      some (sc, modelEncPN impl i ch n v o, some (specEncPN i ch n v o))
+  | "oracle" :: _ => some (sc, [1], some [1])      -- a verdict computed by the harness on the real code; must be 1
+  | _ => (evalStateless req).map (fun (m, s) => (sc, m, s))
+
 def maxPrint : Nat := 200
 
 def step (st : St) (line : String) : St × List String :=
@@ -102,8 +119,9 @@ def step (st : St) (line : String) : St × List String :=
   | [reqS, implS] =>
     let req := reqS.splitOn " " |>.filter (· ≠ "")
     let implWs := implS.splitOn " " |>.filter (· ≠ "")
-    match parseCells implWs, evalReq req with
-    | some impl, some (model, spec?) =>
+    match parseCells implWs, evalReq st.scan req with
+    | some impl, some (scan', model, spec?) =>
+      let st := { st with scan := scan' }
       let out : List String := []
       let (st, out) :=
         if impl ≠ model then
